@@ -318,18 +318,22 @@ func (da *DistributedAllocator) Release(ctx context.Context, subscriberID string
 	da.mu.Lock()
 	defer da.mu.Unlock()
 
-	// Release from appropriate allocator
-	if da.mode == PoolModeLease {
-		if err := da.epochAllocator.Release(ctx, subscriberID); err != nil {
-			return err
-		}
-	} else {
-		if err := da.allocator.Release(subscriberID); err != nil {
-			return err
-		}
+	// Session mode reports an unknown subscriber before touching the store
+	if da.mode != PoolModeLease && da.allocator.Lookup(subscriberID) == nil {
+		return da.allocator.Release(subscriberID)
 	}
 
-	return da.deleteAllocation(ctx, subscriberID)
+	// Remove the stored record first: if that fails the allocation stays in
+	// memory too, so memory and store keep agreeing
+	if err := da.deleteAllocation(ctx, subscriberID); err != nil {
+		return err
+	}
+
+	// Release from appropriate allocator
+	if da.mode == PoolModeLease {
+		return da.epochAllocator.Release(ctx, subscriberID)
+	}
+	return da.allocator.Release(subscriberID)
 }
 
 // Get returns the allocation for a subscriber.
